@@ -465,7 +465,7 @@ class _PythonCodeAssist:
 
     def _find_module(self, pymodule, module_name):
         dots = 0
-        while module_name[dots] == ".":
+        while dots < len(module_name) and module_name[dots] == ".":
             dots += 1
         pyname = pynames.ImportedModule(pymodule, module_name[dots:], dots)
         return pyname.get_object()
